@@ -75,6 +75,29 @@ class WirePort(BaseIOPort):
             self._parser.feed_byte(b)
 
 
+class SharedStatePort(BaseIOPort):
+    """A device port whose _send() and _receive() work on one shared buffer in several steps each, the way
+    the documentation of custom ports allows ("the two functions are protected by the same lock")."""
+
+    def _open(self, wire=None, **kwargs):
+        self.wire = wire
+
+    def _send(self, msg):
+        tag = msg_tag(msg)
+        pending = list(self.wire.buf)          # read - modify - write
+        for b in msg.bytes():
+            self.wire.log.append((tag, b))
+            pending.append(b)
+        self.wire.buf.clear()
+        self.wire.buf.extend(pending)
+
+    def _receive(self, block=True):
+        data = list(self.wire.buf)             # take everything, then empty the buffer
+        for b in data:
+            self._parser.feed_byte(b)
+        self.wire.buf.clear()
+
+
 class RecordingPort(BaseIOPort):
     """Lifecycle double: logs _open/_close/_send/_receive(block) and delivers a
     scripted supply of incoming messages.
